@@ -38,10 +38,10 @@ pub struct GenCase {
 
 pub const LINE_CLASSES: &[(&str, &[&[u8]])] = &[
     ("plain", &[b"plain output", b"another line", b"x", b"foo bar baz"]),
-    ("modifier_lookalike", &[b"foo (glob)", b"bar (?)", b"x ()", b"y (esc+)", b"z (no-eol)", b"w (regex*)", b"(glob)", b" (equal)", b"q (*)"]),
+    ("modifier_lookalike", &[b"foo (glob)", b"bar (?)", b"x ()", b"y (esc+)", b"z (no-eol)", b"w (regex*)", b"(glob)", b" (equal)", b"q (*)", b"C:\\temp\\x (glob)", b"a\\tb (?)"]),
     ("unicode_blank_lookalike", &[b"foo\xe3\x80\x80(glob)", b"bar\xc2\xa0(?)", b"baz\xe2\x80\x83(re)"]),
     ("exit_code_lookalike", &[b"[1]", b"[0]", b"[255]", b"[12345678901]"]),
-    ("command_lookalike", &[b"$ x", b"> x", b"$ ", b"> ", b"  $ indented", b"# hash"]),
+    ("command_lookalike", &[b"$ x", b"> x", b"$ ", b"> ", b"  $ indented", b"# hash", b"$ cd C:\\temp\\bin", b"> \\\\server\\share", b"[1]"]),
     ("fence", &[b"```", b"````", b"```scrut", b"`````x", b"``two", b"`one"]),
     ("blank", &[b"", b" ", b"   ", b"trailing ", b"trailing   ", b"  leading", b"\t"]),
     ("backslash", &[b"a\\tb", b"\\\\", b"\\x41", b"a\\", b"\\n", b"C:\\dir\\file"]),
